@@ -70,6 +70,10 @@ type conn struct {
 
 	mu            sync.Mutex
 	subscriptions map[string]*reactive.Rerunner
+	// mutations holds the entries of subscriptions that are mutations in flight:
+	// they share the id space and the map, but the subscription logger never saw
+	// a Subscribe for them and must not see an Unsubscribe either.
+	mutations map[*reactive.Rerunner]struct{}
 
 	alwaysSpawnGoroutineFunc AlwaysSpawnGoroutineFunc
 	minRerunIntervalFunc     RerunIntervalFunc
@@ -299,7 +303,13 @@ func (c *conn) handleMutate(in *inEnvelope) error {
 	e := c.executor
 	// See handleSubscribe.
 	var self *reactive.Rerunner
-	defer func() { self = c.subscriptions[id] }()
+	defer func() {
+		self = c.subscriptions[id]
+		if c.mutations == nil {
+			c.mutations = make(map[*reactive.Rerunner]struct{})
+		}
+		c.mutations[self] = struct{}{}
+	}()
 	c.subscriptions[id] = reactive.NewRerunner(c.ctx, func(ctx context.Context) (interface{}, error) {
 		// Serialize all mutates for a given connection.
 		c.mutateMu.Lock()
@@ -381,6 +391,16 @@ func (c *conn) rerunSubscriptionsImmediately() {
 	}
 }
 
+// logUnsubscribe tells the subscription logger that the entry for id has ended,
+// unless the entry was a mutation. Callers hold c.mu.
+func (c *conn) logUnsubscribe(id string, runner *reactive.Rerunner) {
+	if _, ok := c.mutations[runner]; ok {
+		delete(c.mutations, runner)
+		return
+	}
+	c.subscriptionLogger.Unsubscribe(c.ctx, id)
+}
+
 func (c *conn) closeSubscription(id string) {
 	c.mu.Lock()
 	defer c.mu.Unlock()
@@ -388,7 +408,7 @@ func (c *conn) closeSubscription(id string) {
 	if runner, ok := c.subscriptions[id]; ok {
 		runner.Stop()
 		delete(c.subscriptions, id)
-		c.subscriptionLogger.Unsubscribe(c.ctx, id)
+		c.logUnsubscribe(id, runner)
 	}
 }
 
@@ -402,7 +422,7 @@ func (c *conn) closeSubscriptionIfCurrent(id string, self **reactive.Rerunner) {
 	if runner, ok := c.subscriptions[id]; ok && runner == *self {
 		runner.Stop()
 		delete(c.subscriptions, id)
-		c.subscriptionLogger.Unsubscribe(c.ctx, id)
+		c.logUnsubscribe(id, runner)
 	}
 }
 
@@ -413,7 +433,7 @@ func (c *conn) closeSubscriptions() {
 	for id, runner := range c.subscriptions {
 		runner.Stop()
 		delete(c.subscriptions, id)
-		c.subscriptionLogger.Unsubscribe(c.ctx, id)
+		c.logUnsubscribe(id, runner)
 	}
 }
 
